@@ -70,7 +70,11 @@ func c14Run(u *vfUnit) {
 				}
 				dmu.Unlock()
 				if slow {
-					time.Sleep(4200 * time.Millisecond)
+					d := 4200 * time.Millisecond
+					if u.Index%24 == 3 {
+						d = 12500 * time.Millisecond // one unit: longer than a patience of ten seconds
+					}
+					time.Sleep(d)
 				}
 				if d > 300 {
 					time.Sleep(time.Duration(d) * time.Microsecond)
